@@ -5,6 +5,7 @@ import Mathlib.Data.Int.Bitwise
 import Mathlib.Tactic.Ring
 import Mathlib.Tactic.Linarith
 import Mathlib.Data.List.Induction
+import Mathlib.Data.Nat.Digits.Defs
 namespace Mpir.Bits
 open Mpir
 
@@ -1948,5 +1949,79 @@ theorem mpz_combit_lxor (d : Z) (hd : d.WF) (i : Nat) :
 
 theorem ofNat_two_pow (i : Nat) : Int.ofNat (2 ^ i) = (2 : Int) ^ i := by
   change ((2 ^ i : Nat) : Int) = _; push_cast; rfl
+
+theorem popcount_zero : popcount 0 = 0 := by rw [popcount]; simp
+theorem popcount_step (n : Nat) : popcount n = n % 2 + popcount (n / 2) := by
+  by_cases h : n = 0
+  · subst h; simp [popcount_zero]
+  · rw [popcount, dif_neg h]
+
+/-- the specification's bit count is the sum of the binary digits -/
+theorem popcount_eq_digits (n : Nat) : popcount n = (Nat.digits 2 n).sum := by
+  induction n using Nat.strongRecOn with
+  | ind n ih =>
+    by_cases h : n = 0
+    · subst h; simp [popcount_zero]
+    · rw [popcount_step, Nat.digits_def' (by decide) (Nat.pos_of_ne_zero h), List.sum_cons,
+        ih (n / 2) (Nat.div_lt_self (Nat.pos_of_ne_zero h) (by decide))]
+
+theorem popcount_split (k : Nat) : ∀ (x v : Nat), x < 2 ^ k → popcount (x + 2 ^ k * v) = popcount x + popcount v := by
+  induction k with
+  | zero => intro x v hx; have : x = 0 := by simpa using hx
+            subst this; simp [popcount_zero]
+  | succ k ih =>
+    intro x v hx
+    have e0 : 2 ^ (k + 1) * v = 2 * (2 ^ k * v) := by rw [pow_succ]; ring
+    have e1 : (x + 2 ^ (k + 1) * v) % 2 = x % 2 := by
+      rw [e0, Nat.add_mul_mod_self_left]
+    have e2 : (x + 2 ^ (k + 1) * v) / 2 = x / 2 + 2 ^ k * v := by
+      rw [e0, Nat.add_mul_div_left _ _ (by decide : 0 < 2)]
+    have hx2 : x / 2 < 2 ^ k := by rw [pow_succ] at hx; omega
+    rw [popcount_step, e1, e2, ih _ _ hx2, popcount_step x]; omega
+
+theorem popcAux_eq (k : Nat) : ∀ x, popcAux k x = popcount (x % 2 ^ k) := by
+  induction k with
+  | zero => intro x; simp [popcAux, Nat.mod_one, popcount_zero]
+  | succ k ih =>
+    intro x
+    have e1 : (x % 2 ^ (k + 1)) % 2 = x % 2 := by
+      rw [pow_succ']; exact Nat.mod_mod_of_dvd _ (Dvd.intro _ rfl)
+    have e2 : (x % 2 ^ (k + 1)) / 2 = (x / 2) % 2 ^ k := by
+      rw [pow_succ']; exact Nat.mod_mul_right_div_self _ _ _
+    rw [popcAux, ih, popcount_step (x % 2 ^ (k + 1)), e1, e2]
+
+theorem popc_eq (x : Nat) (hx : x < B) : popc x = popcount x := by
+  unfold popc; rw [popcAux_eq, Nat.mod_eq_of_lt (by unfold B at hx; exact hx)]
+
+theorem mpn_popcount_eq : ∀ (u : List Nat), Limbs u → mpn_popcount u = popcount (val u)
+  | [], _ => by simp [mpn_popcount, popcount_zero]
+  | x :: xs, hu => by
+    have ⟨hx, hxs⟩ := Limbs_cons.mp hu
+    have ih := mpn_popcount_eq xs hxs
+    unfold mpn_popcount at *
+    rw [List.map_cons, List.sum_cons, ih, popc_eq x hx, val_cons]
+    unfold B at *
+    rw [popcount_split 64 x (val xs) hx]
+
+theorem mpn_popcount_append (u v : List Nat) : mpn_popcount (u ++ v) = mpn_popcount u + mpn_popcount v := by
+  unfold mpn_popcount; simp
+
+theorem mpz_popcount_eq (u : Z) (hu : u.WF) :
+    mpz_popcount u = if u.toInt < 0 then BITCNT_MAX else popcount u.toInt.toNat := by
+  unfold mpz_popcount
+  cases hn : u.neg
+  · simp only [Bool.false_eq_true, ↓reduceIte]
+    rw [toInt_nonneg u hn]
+    have : ¬ (Int.ofNat (val u.mag) < 0) := by simp
+    rw [if_neg this]
+    by_cases h0 : u.mag.length > 0
+    · rw [if_pos h0, mpn_popcount_eq u.mag hu.limbs]; rfl
+    · rw [if_neg h0]
+      have : u.mag = [] := List.eq_nil_of_length_eq_zero (by omega)
+      rw [this]; simp [popcount_zero]
+  · simp only [↓reduceIte]
+    rw [toInt_neg u hn (hu.pos hn)]
+    have : Int.negSucc (val u.mag - 1) < 0 := Int.negSucc_lt_zero _
+    rw [if_pos this]
 
 end Mpir.Bits
